@@ -15,6 +15,7 @@ import (
 var (
 	lvNotice = log.RegisterLevel(350, "notice")
 	lvTop    = log.RegisterLevel(998, "Top")
+	lvOver   = log.RegisterLevel(1200, "Over") // a user-registered level above the built-in MAX
 	tagC01   = regTag("_c01_probe")
 )
 
@@ -27,7 +28,7 @@ type lvl struct {
 var allLevels = []lvl{
 	{"NONE", 0, log.NoneLevel}, {"TRACE", 100, log.TraceLevel}, {"DEBUG", 200, log.DebugLevel}, {"INFO", 300, log.InfoLevel},
 	{"NOTICE", 350, lvNotice}, {"WARN", 400, log.WarnLevel}, {"ERROR", 500, log.ErrorLevel}, {"PANIC", 600, log.PanicLevel},
-	{"FATAL", 700, log.FatalLevel}, {"TOP", 998, lvTop}, {"MAX", 999, log.MaxLevel},
+	{"FATAL", 700, log.FatalLevel}, {"TOP", 998, lvTop}, {"MAX", 999, log.MaxLevel}, {"OVER", 1200, lvOver},
 }
 
 func levelByName(n string) (lvl, bool) {
@@ -154,10 +155,11 @@ func init() {
 			shapes = append(shapes, lo+"~"+up)
 		}
 	}
-	shapes = append(shapes, "") // empty = everything
+	shapes = append(shapes, "")                         // empty = everything
+	shapes = append(shapes, "DEBUG~OVER", "notice~Top") // explicit upper bounds that are user-registered levels (above MAX, just below it)
 	loggerRanges := []string{"", "INFO", "DEBUG~ERROR", "WARN~WARN", "notice", "TRACE~TOP"}
 	definePart("C01", "c01/reference-chaining", "qt",
-		fmt.Sprintf("every sequence of 1-3 (thorough 4) appender references over %d level shapes x %d logger ranges x 11 event levels through Refresh and Record; async/layout kinds on 1-2 references", len(shapes), len(loggerRanges)),
+		fmt.Sprintf("every sequence of 1-3 (thorough 4) appender references over %d level shapes x %d logger ranges x 12 event levels through Refresh and Record; async/layout kinds on 1-2 references", len(shapes), len(loggerRanges)),
 		func(tier string, yield func(chainCase)) {
 			maxN := 3
 			if tier == "thorough" {
